@@ -273,7 +273,7 @@ func (ke *kEval) run(points []crashPoint) {
 		var rest []int
 		for i, pt := range points {
 			kind := ke.k.ops[pt.Op].Kind
-			if (kind == "del" || kind == "delmulti" || kind == "reopen") && len(sel) < maxPts*2/3 {
+			if (kind == "del" || kind == "delmulti" || kind == "reopen" || kind == "kill") && len(sel) < maxPts*2/3 {
 				sel[i] = true
 			} else {
 				rest = append(rest, i)
